@@ -96,6 +96,29 @@ def rule_r1_r2(ctx: Ctx) -> None:
             bad_read.append({"reference": label, "reads": [e[1].label for e in reads], "other accesses": [(e[1].label, e[0]) for e in others]})
         if [(a is A, b is want) for a, b in vis.calls] != [(True, True)]:
             bad_vis.append({"reference": label, "visitor calls": [(getattr(a, "label", a), getattr(b, "label", b)) for a, b in vis.calls]})
+    # the outcome does not depend on what has been read before: with the exactly-named candidate already read (its type
+    # cached) a duplicate or a letter-case twin is still a collision, and a unique candidate still resolves to itself
+    from ..fold import Sym as _Sym
+
+    for ref, ver, lookups, want in cases:
+        exact = [d for d in lookups if d.full_name == ref and tuple(d.version) == tuple(ver)]
+        if not exact:
+            continue
+        del w.log[:]
+        for d in w.defs:
+            d.__dict__["composite_type"] = None
+        done = _Sym(_kind_="StructureType", _isa_=frozenset({"CompositeType", "StructureType", "SerializableType"}), label=exact[0].label)
+        exact[0].__dict__["composite_type"] = done
+        o = R.resolve(ctx, A, lookups, ref, ver[0], ver[1])
+        ctx.count()
+        label = "%s.%d.%d among %s, %s already read" % (ref, ver[0], ver[1], [d.label for d in lookups], exact[0].label)
+        if isinstance(want, str):
+            if not _is_sub(ctx, o["raised"], want):
+                bad_table.append({"reference": label, "found": o["raised"] or "resolved to %s" % getattr(o["result"], "label", o["result"]), "expected": want})
+        elif o["raised"] or getattr(o["result"], "label", None) != want.label:
+            bad_table.append({"reference": label, "found": o["raised"] or getattr(o["result"], "label", o["result"]), "expected": want.label})
+    for d in w.defs:
+        d.__dict__["composite_type"] = None
     ctx.check(not bad_table, fn.short, "outcome table", "no match -> undefined type; several -> collision; one differing by letter case -> name collision; exactly one -> that definition is read", fn.where(), bad_table[:4])
     ctx.check(not bad_cls, fn.short, "rejection class", "failed references are InvalidDefinitionError subclasses", fn.where(), sorted(set(bad_cls)), nontrivial=False)
     ctx.check(not bad_read, fn.short, "the single match is read, with the referrer's lookup list, visitors, handler and settings", "the single match - and nothing else - is read with the referrer's lookup list and settings, and its type is the result", fn.where(), bad_read[:3])
